@@ -126,8 +126,43 @@ fn ev(v: &Value, a: &[bool]) -> bool {
     }
 }
 
+/// formulas whose labels reach beyond 64 (a few clauses over <= 8 mentioned variables among 66-70): every way of compiling
+/// the CNF in one BDD builder must give the same pointer, and the diagram must agree with the CNF on every assignment of
+/// the mentioned variables (the others false / true); the SDD builder (right-linear vtree) likewise by evaluation
+fn run_wide(c: &Value) -> CaseResult {
+    let nv = c["nvars"].as_u64().unwrap_or(66) as usize;
+    let cls: Vec<Vec<Literal>> = c["cnf"].as_array().map(|cs| cs.iter().map(|cl| cl.as_array().map(|ls| ls.iter().map(|l| {
+        let x = l.as_i64().unwrap_or(1);
+        Literal::new(VarLabel::new((x.unsigned_abs() - 1) as u64), x > 0)
+    }).collect()).unwrap_or_default()).collect()).unwrap_or_default();
+    let cnf = Cnf::new(&cls);
+    let mut used: Vec<usize> = cls.iter().flat_map(|cl| cl.iter().map(|l| l.label().value() as usize)).collect(); used.sort(); used.dedup();
+    if used.len() > 10 || cnf.num_vars() != nv { return Ok(()); }
+    let order: Vec<VarLabel> = (0..nv as u64).map(VarLabel::new).collect();
+    let b = RobddBuilder::<AllIteTable<BddPtr>>::new(VarOrder::new(&order));
+    let d = b.compile_cnf(&cnf);
+    let dt = DTree::from_cnf(&cnf, &VarOrder::new(&order));
+    let dp = b.compile_plan(&BottomUpPlan::from_dtree(&dt));
+    let dw = b.compile_cnf_with_assignments(&cnf, &PartialModel::from_assignments(&vec![None; nv]));
+    let sb = CompressionSddBuilder::new(VTree::right_linear(&order));
+    let sd = sb.compile_cnf(&cnf);
+    let sp = sb.compile_plan(&BottomUpPlan::from_dtree(&dt));
+    for fill in [false, true] {
+        for m in 0..(1usize << used.len()) {
+            let mut a = vec![fill; nv];
+            for (k, v) in used.iter().enumerate() { a[*v] = (m >> k) & 1 == 1; }
+            let want = cls.iter().all(|cl| cl.iter().any(|l| a[l.label().value() as usize] == l.polarity()));
+            for (what, got) in [("compile_cnf", eval(d, &a)), ("plan from dtree", eval(dp, &a)), ("compile_cnf_with_assignments(no assignment)", eval(dw, &a)), ("SDD compile_cnf", seval(sd, &a)), ("SDD plan from dtree", seval(sp, &a))] {
+                if got != want { return Err(format!("{what} on a formula with labels up to {}: diagram is {got}, the CNF is {want} (mentioned variables {:?} = {:b}, the others {fill})", nv - 1, used, m)); }
+            }
+        }
+    }
+    Ok(())
+}
+
 pub fn run(c: &Value) -> CaseResult {
     if c["case"].as_str() == Some("compile_sdd") { return run_sdd(c); }
+    if c["case"].as_str() == Some("compile_wide") { return run_wide(c); }
     let order: Vec<VarLabel> = c["order"].as_array().map(|a| a.iter().map(|v| VarLabel::new(v.as_u64().unwrap_or(0))).collect()).unwrap_or_default();
     let nv = order.len();
     let b = RobddBuilder::<AllIteTable<BddPtr>>::new(VarOrder::new(&order));
@@ -252,6 +287,14 @@ pub fn candidates(seed: u64) -> Vec<Value> {
         for (vi, bt) in batches.into_iter().enumerate() {
             for chunk in bt.chunks(120) { out.push(json!({"case": "compile_sdd", "exprs": chunk, "vtree": vts[vi]})); }
         }
+    }
+    // labels beyond 64: a few clauses over variables picked from {0..3} and {62..69}
+    for _ in 0..40 {
+        let pool: Vec<i64> = vec![1, 2, 3, 4, 63, 64, 65, 66, 67, 68, 69, 70];
+        let nv = 66 + nx(5);
+        let mut cnf: Vec<Vec<i64>> = (0..2 + nx(3)).map(|_| (0..1 + nx(3)).map(|_| { let v = pool[nx(12) as usize].min(nv as i64); if nx(2) == 0 { v } else { -v } }).collect()).collect();
+        cnf.push(vec![nv as i64, 2]);
+        out.push(json!({"case": "compile_wide", "cnf": cnf, "nvars": nv}));
     }
     // five variables: left-linear, right-linear, balanced and two mixed vtrees, random CNFs and expressions
     let vt5 = [json!([[[[0, 1], 2], 3], 4]), json!([0, [1, [2, [3, 4]]]]), json!([[0, 1], [[2, 3], 4]]), json!([[3, [0, 4]], [2, 1]]), json!([[4, 2], [[1, 0], 3]])];
